@@ -1143,6 +1143,41 @@ def run(rep, ctx):
         pv.cfg.path_avoiding(None, "exit", [ex[0]["i"]], from_entry=True) is None and \
         [render(x) for x in call_args(ex[0])[1:4]] == ["var_lb_", "var_ub_", "var_type_"]
     p2.check(ok, "variables|final-update", short_loc(pv.loc), "PushVariablesTo re-exports all variables (final bounds, names) on every path")
+    # ---- X1: NL item records carry the item's own NL index ---------------------------------------------
+    x1 = rep.rule("C20.X1", "TABLE", "records of NL items carry the item's NL index and name: algebraic constraint i -> i, logical constraint i -> num_algebraic_cons()+i, objective i -> i", floor=3)
+    WANT_IX = {"ExportAlgCon": ("index", {"i": 1.0}, "con_name"), "ExportLogCon": ("index", {"i": 1.0, "GetModel().num_algebraic_cons()": 1.0}, "con_name"),
+               "ExportObj": ("NL_OBJECTIVE_index", {"i": 1.0}, "obj_name")}
+
+    def aff_ix(f, e, depth=0):
+        e = strip(e)
+        if e["k"] == "BinaryOperator" and e.get("op") in ("+", "-"):
+            a_, b_ = aff_ix(f, kids(e)[0], depth), aff_ix(f, kids(e)[1], depth)
+            out = dict(a_)
+            for t_, v_ in b_.items():
+                out[t_] = out.get(t_, 0.0) + (v_ if e["op"] == "+" else -v_)
+            return {t_: v_ for t_, v_ in out.items() if v_}
+        if e["k"] == "DeclRefExpr" and depth < 3:
+            vd = [v for v in f.walk() if v["k"] == "VarDecl" and v.get("declId") == e.get("declId") and kids(v)]
+            if len(vd) == 1:
+                return aff_ix(f, kids(vd[0])[0], depth + 1)
+        return {render(e).replace(" ", "").replace("this->", ""): 1.0}
+    for fname, (keyname, want_ix, namer) in sorted(WANT_IX.items()):
+        g = one("mp::ProblemFlattener::" + fname)
+        idx_val = None
+        name_args = []
+        for n in g.walk():
+            if n["k"] == "CXXOperatorCallExpr" and n.get("op") == "=":
+                a = call_args(n)
+                lits = [x.get("v") for x in walk(a[0]) if x["k"] == "StringLiteral"]
+                if lits and lits[0] == keyname:
+                    idx_val = a[1]
+            if n["k"] == "CXXMemberCallExpr" and (n.get("callee") or "").split("::")[-1] == namer:
+                name_args.append(call_args(n)[0])
+        okx = idx_val is not None and aff_ix(g, idx_val) == want_ix and bool(name_args) and all(aff_ix(g, a_) == want_ix for a_ in name_args)
+        x1.check(okx, fname, short_loc(g.loc), "%s writes \"%s\" = %s and takes the name of the same index" % (fname, keyname, "+".join(sorted(want_ix))),
+                 "%s writes \"%s\" = %s (names from %s): the record names another NL item than the one exported, so some NL constraints have no record and link records point at items that have none" %
+                 (fname, keyname, aff_ix(g, idx_val) if idx_val is not None else "?", [aff_ix(g, a_) for a_ in name_args]))
+
     csi = one("mp::ProblemFlattener::ConvertStandardItems")
     want = [("ExportCommonExpr", "num_common_exprs"), ("ExportObj", "num_objs"), ("ExportAlgCon", "n_cons"), ("ExportLogCon", "n_lcons")]
     for exn, bound in want:
